@@ -52,19 +52,23 @@ func propRegistry() map[string]PropSpec {
 	add(PropSpec{
 		ID: "C01",
 		BMC: []BMCSpec{
-			{Name: "entry3", Pkg: "cache", Fn: "Harness_BMC_entry3", Init: initCache, Only: []string{"C01.", "every-thread-completes"}},
-			{Name: "store2", Pkg: "cache", Fn: "Harness_BMC_entry_store2", Init: initCache, Only: []string{"C01.", "every-thread-completes"}},
+			{Name: "entry3", Pkg: "cache", Fn: "Harness_BMC_entry3", Init: initCache, Only: []string{"C01.", "every-thread-completes", "race-free"}},
+			{Name: "store2", Pkg: "cache", Fn: "Harness_BMC_entry_store2", Init: initCache, Only: []string{"C01.", "every-thread-completes", "race-free"}},
 		},
-		Explanation: "Bounded model checking of the real (*httpCache).Get/get/Cacheable/HitForPass (SSA of the current tree) for three concurrent requests on one key under a symbolic scheduler: the schedule, every clock reading (so expiry can fall at any point, also between a waiter's wake-up and its resumption) and every fetch outcome are solver variables. Obligations: at most one request of status fetching is at the upstream at any step; the status a request is given is always decided (fetching, hit or hit-for-pass); every request completes.",
+		Explanation: "Bounded model checking of the real (*httpCache).Get/get/Cacheable/HitForPass (SSA of the current tree) for three concurrent requests on one key under a symbolic scheduler: the schedule, every clock reading (so expiry can fall at any point, also between a waiter's wake-up and its resumption) and every fetch outcome are solver variables. Obligations: at most one request of status fetching is at the upstream at any step; the status a request is given is always decided (fetching, hit or hit-for-pass); every request completes; the entry's state (status, response, waiter list, timestamps) is never accessed by two requests at once without a common lock (the race obligations appear only when some access is not consistently protected).",
 		Assumptions: bmcAssume,
 		Encoded:     []string{"cache.(*httpCache).Get", "cache.(*httpCache).get", "cache.(*httpCache).Cacheable", "cache.(*httpCache).HitForPass"},
 		Bounds:      map[string]string{"threads": "3 requests on one key", "K": "computed from the transaction graph (21 on the current tree)"},
 	})
 	add(PropSpec{
-		ID: "C02",
+		ID:    "C02",
+		Level: "model_checking",
+		Harnesses: []HarnessSpec{
+			{Pkg: "server", Fn: "Harness_MW_cache", Init: []string{"util", "store", "compress", "cache", "location", "upstream", "server"}, Reach: []string{"MW.passed", "MW.cold", "MW.second.hit", "MW.second.pass", "MW.second.refetch"}},
+		},
 		BMC: []BMCSpec{
-			{Name: "entry3", Pkg: "cache", Fn: "Harness_BMC_entry3", Init: initCache, Only: []string{"C02.", "every-thread-completes", "no-panic", "C01.status"}},
-			{Name: "store2", Pkg: "cache", Fn: "Harness_BMC_entry_store2", Init: initCache, Only: []string{"C02.", "every-thread-completes", "no-panic", "C01.status"}},
+			{Name: "entry3", Pkg: "cache", Fn: "Harness_BMC_entry3", Init: initCache, Only: []string{"C02.", "every-thread-completes", "no-panic", "C01.status", "race-free"}},
+			{Name: "store2", Pkg: "cache", Fn: "Harness_BMC_entry_store2", Init: initCache, Only: []string{"C02.", "every-thread-completes", "no-panic", "C01.status", "race-free"}},
 		},
 		Explanation: "Same transition system as C01 (three concurrent requests, symbolic scheduler/clock/outcomes: cacheable or uncacheable-or-failed i.e. HitForPass). Obligations: every thread completes within the step bound under a scheduler that always runs an enabled thread (so a request still parked or blocked at the bound is a lost wake-up or deadlock, including a waiter that registered but had not yet started to wait); fetchers get no response, hits always carry the fetched response; no panic.",
 		Assumptions: bmcAssume,
@@ -94,6 +98,7 @@ func propRegistry() map[string]PropSpec {
 			{Pkg: "server", Fn: "Harness_C03_maxage_twolines", Init: []string{"util", "server"}, Reach: []string{"C03.maxage.end"}},
 			{Pkg: "server", Fn: "Harness_C03_age_overflow", Init: []string{"util", "server"}, Reach: []string{"C03.age.end"}},
 			{Pkg: "server", Fn: "Harness_C03_structured", Init: []string{"util", "server"}, Reach: []string{"C03.struct.end"}},
+			{Pkg: "server", Fn: "Harness_MW_cache", Init: []string{"util", "store", "compress", "cache", "location", "upstream", "server"}, Reach: []string{"MW.passed", "MW.cold", "MW.second.hit", "MW.second.pass", "MW.second.refetch"}},
 			{Pkg: "server", Fn: "Harness_C03_maxage_thorough", Init: []string{"util", "server"}, Tier: "thorough", Reach: []string{"C03.maxage.end"}},
 			{Pkg: "server", Fn: "Harness_C03_structured_thorough", Init: []string{"util", "server"}, Tier: "thorough", Reach: []string{"C03.struct.end"}},
 		},
